@@ -1,0 +1,9 @@
+//go:build !verif
+
+// Package verifhook provides named instrumentation points for the external
+// verification harness. Without the "verif" build tag every point is a no-op.
+package verifhook
+
+// Point marks a named instrumentation point. It does nothing unless the
+// binary is built with -tags verif.
+func Point(string) {}
